@@ -1,15 +1,20 @@
 #!/bin/sh
 # MANIFEST.setup_cmd: build the framework offline from files on disk only.
+# Only what the claimed checks need is required to build; everything else (checks still being
+# built) is attempted and may fail without failing the setup.  Every check rebuilds what it needs
+# (Gen tables from /repo, its Coq targets, its extraction, its harness) on every run anyway.
 set -e
 cd "$(dirname "$0")"
 export GOFLAGS=-mod=mod GOPROXY=off GOSUMDB=off GOTOOLCHAIN=local
 mkdir -p build/bin evidence replays
-# 1. regenerate Gen/ tables (if the extractor exists) and build the whole Coq development
-if [ -d tools/gotables ]; then (cd tools/gotables && go build -o ../../build/bin/gotables . && ../../build/bin/gotables -repo /repo -out ../../coq/Gen >/dev/null); fi
-timeout 3000 coq/mk.sh -j16
-# 2. extraction + OCaml driver
-for f in coq/Extract/*.v; do n=$(basename $f .v | tr A-Z a-z); extract/build.sh $n; done
-# 3. implementation-side harness against /repo
+CLAIMED=$(cat checks/meta/_claimed.txt)
+# 1. regenerate Gen/ tables (if the extractor exists)
+if [ -d tools/gotables ]; then (cd tools/gotables && go build -o ../../build/bin/gotables . && ../../build/bin/gotables -repo /repo -out ../../coq/Gen >/dev/null) || echo "warning: gotables failed"; fi
+# 2. the Coq development of the claimed properties (full .vo build)
+TARGETS=""
+for p in $CLAIMED; do TARGETS="$TARGETS Props/$p.vo"; done
+timeout 3000 coq/mk.sh -j16 $TARGETS
+# 3. everything else, best effort
+timeout 3000 coq/mk.sh -k -j16 >/dev/null 2>&1 || echo "note: some Coq files of unclaimed properties do not build yet"
 cp /repo/go.sum harness/go.sum
-(cd harness && for d in cmd/*/; do n=$(basename $d); go build -tags verif -o ../build/bin/hv-$n ./cmd/$n; done)
 echo setup ok
